@@ -56,6 +56,7 @@ func c29(c *core.Ctx) {
 	c.Rule("C29.lockorder", "the lock-order graph of package server (edge A→B when B is acquired, directly or in a callee, while A is held) has no cycle", 1)
 	c.Rule("C29.rlock", "no RWMutex is read-locked again on a path that already holds its read lock (a writer queued in between deadlocks both)", 1)
 	c.Rule("C29.blockheld", "no potentially blocking channel send (outside a select with default) is executed while holding a server mutex that request handlers need", 1)
+	c29IterAlias(c)
 	c.Rule("C29.index", "no constant index into a slice returned by a call (e.g. Endpoints()[0]) without a dominating length check", 1)
 
 	// recover
